@@ -5,6 +5,7 @@
 package engine
 
 import (
+	"context"
 	"bufio"
 	"bytes"
 	"crypto/sha256"
@@ -281,8 +282,14 @@ func RunDescMain(args []string) int {
 	return 0
 }
 
+// subTimeout bounds one re-execution of a case in a sub-process (confirmation runs): a case that hangs is an error of that
+// re-execution, never an endless wait of the whole check.
+const subTimeout = 420 * time.Second
+
 func runDescSub(id, tier string, seed int64, desc json.RawMessage, gmp int) (Result, error) {
-	cmd := exec.Command(selfExe(), "rundesc", id, tier, strconv.FormatInt(seed, 10))
+	ctx, cancel := context.WithTimeout(context.Background(), subTimeout)
+	defer cancel()
+	cmd := exec.CommandContext(ctx, selfExe(), "rundesc", id, tier, strconv.FormatInt(seed, 10))
 	cmd.Env = append(os.Environ(), "GOGC=400", "GOMEMLIMIT=3GiB", "GOMAXPROCS="+strconv.Itoa(gmp))
 	cmd.Stdin = bytes.NewReader(desc)
 	out, err := cmd.Output()
@@ -672,7 +679,9 @@ func firstLine(s string) string {
 }
 
 func runCaseSub(id, tier string, seed int64, idx int) (Result, error) {
-	cmd := exec.Command(selfExe(), "runcase", id, tier, strconv.FormatInt(seed, 10), strconv.Itoa(idx))
+	ctx, cancel := context.WithTimeout(context.Background(), subTimeout)
+	defer cancel()
+	cmd := exec.CommandContext(ctx, selfExe(), "runcase", id, tier, strconv.FormatInt(seed, 10), strconv.Itoa(idx))
 	cmd.Env = append(os.Environ(), "GOGC=400", "GOMEMLIMIT=3GiB")
 	out, err := cmd.Output()
 	var r Result
